@@ -193,6 +193,43 @@ impl Stats {
             self.states.insert(s.clone());
             prev = Some(s);
         }
+        // tracing runs: abstract collector state at every delivered Log event
+        // (attempts in flight, what the emitting attempt did last, whether it is a retry)
+        {
+            let mut in_flight = 0usize;
+            let mut last_of: BTreeMap<(usize, usize, usize, Option<(usize, usize)>), &'static str> = BTreeMap::new();
+            let mut prev: Option<String> = None;
+            for e in &h.events {
+                match e.k {
+                    K::ScStarted => in_flight += 1,
+                    K::ScFinished => in_flight = in_flight.saturating_sub(1),
+                    _ => {}
+                }
+                let Some(key) = e.attempt_key() else { continue };
+                if let K::Log(_) = e.k {
+                    let s = format!(
+                        "log inflight={} after={} retry={}",
+                        match in_flight {
+                            0 => "0",
+                            1 => "1",
+                            2..=3 => "2-3",
+                            _ => "4+",
+                        },
+                        last_of.get(&key).copied().unwrap_or("-"),
+                        e.retries.is_some_and(|r| r.0 > 0)
+                    );
+                    if let Some(p) = &prev {
+                        if *p != s {
+                            self.transitions.insert(format!("{p} -> {s}"));
+                        }
+                    }
+                    self.states.insert(s.clone());
+                    prev = Some(s);
+                } else {
+                    last_of.insert(key, e.k.tag());
+                }
+            }
+        }
         if self.samples.len() < 3 && h.events.len() > 6 {
             let trace: Vec<String> = h.events.iter().take(60).map(crate::record::Ev::short).collect();
             self.samples.push(serde_json::json!({
